@@ -104,16 +104,26 @@ def r1(ctx):
                 if not (is_num(t['expr']) and num_equal(t['expr'], want_e)):
                     probs.append(f'pixel coordinate {t["field"]}.{t["comp"]} is written as {show(t["expr"], 80)}, not value + 1 '
                                  '(DS9 is 1-based)')
+                if not _spec_has_precision(t.get('spec')):
+                    probs.append(f'pixel coordinate {t["field"]}.{t["comp"]} is formatted with {show(t.get("spec"), 60)}: the '
+                                 'requested precision does not reach it')
             elif t['kind'] == 'pixcoords':
-                body = _vertex_loop_terms(m, wfi)
+                body = _vertex_loop_terms(m, wfi) or _vertex_map_terms(m, wfi, t['expr'])
                 if body is None:
                     raise AnalysisError('C09.R1', construct, 'vertex-formatting loop not found')
-                ex, ey = body
+                ex, ey, specs = body
                 if not (is_num(ex) and num_equal(ex, sym('val.x') + 1) and is_num(ey) and num_equal(ey, sym('val.y') + 1)):
                     probs.append(f'polygon vertices are written as ({show(ex, 60)}, {show(ey, 60)}), not (x + 1, y + 1)')
+                if not all(_spec_has_precision(sp_) for sp_ in specs):
+                    probs.append(f'polygon vertices are formatted with {[show(sp_, 40) for sp_ in specs]}: the requested '
+                                 'precision does not reach them (they are always written with a fixed number of decimals)')
             elif t['kind'] == 'size':
                 e = t['expr']
                 inner = e.args[0] if isinstance(e, App) and e.name == 'fstring' and len(e.args) == 1 else None
+                if inner is not None:
+                    inner, spec = ds9.unfmt(inner)
+                    if not _spec_has_precision(spec):
+                        probs.append(f'{t["field"]} is formatted with {show(spec, 60)}: the requested precision does not reach it')
                 if inner is None and isinstance(e, Ite):
                     # sky sizes: Angle / Quantity to_string(unit='deg') of value or value/2
                     inner = _to_string_arg(e)
@@ -165,6 +175,26 @@ def _to_string_arg(e):
     return None
 
 
+def _spec_has_precision(spec):
+    """does the format spec depend on the precision argument of the serialiser?"""
+    from ..vg import mentions_name
+    return spec is not None and mentions_name(spec, 'prec')
+
+
+def _vertex_map_terms(m, wfi, expr):
+    """vertex formatting through map(<repo function>, vertices)."""
+    from ..vg import FuncRef, Frame
+    for x in walk_terms(expr):
+        if isinstance(x, App) and x.name == 'map' and x.args and isinstance(x.args[0], FuncRef):
+            ev = Evaluator(m)
+            val = Obj('PixCoord', {}, 'val', m.cls('PixCoord'))
+            t = ev.call(x.args[0].fi, [val], {})
+            if isinstance(t, App) and t.name == 'fstring' and len(t.args) >= 3:
+                (vx, sx), (vy, sy) = ds9.unfmt(t.args[0]), ds9.unfmt(t.args[2])
+                return vx, vy, [sx, sy]
+    return None
+
+
 def _vertex_loop_terms(m, wfi):
     """(x expr, y expr) written per vertex by the loop over a non-scalar PixCoord."""
     for fi in m.modules[wfi.module].functions.values():
@@ -176,7 +206,8 @@ def _vertex_loop_terms(m, wfi):
                     from ..vg import Frame
                     fr = Frame(fi, None, 0)
                     env = {n.target.id: Obj('PixCoord', {}, 'val', m.cls('PixCoord')), 'precision': sym('prec')}
-                    return ev.expr(fvs[0].value, env, fr), ev.expr(fvs[1].value, env, fr)
+                    specs = [ev.expr(x.format_spec, env, fr) if x.format_spec is not None else None for x in fvs[:2]]
+                    return ev.expr(fvs[0].value, env, fr), ev.expr(fvs[1].value, env, fr), specs
     return None
 
 
